@@ -36,9 +36,9 @@ def sd : Dom K → Env K → Env K → Option K
   | .cut a b, pts, ρ => do pure (minK (← sd a pts ρ) (-(← sd b pts ρ)))
   | .translate v d t, pts, ρ =>
     match pts.get v, t.f (pts ++ ρ) with
-    | some [x], [tx] => sd d [(v, [x - tx])] ρ
-    | some [x, y], [tx, ty] => sd d [(v, [x - tx, y - ty])] ρ
-    | some [x, y, z], [tx, ty, tz] => sd d [(v, [x - tx, y - ty, z - tz])] ρ
+    | some [x], [tx] => sd d [(v, [x - tx])] (pts.filter (fun b => b.1 != v) ++ ρ)
+    | some [x, y], [tx, ty] => sd d [(v, [x - tx, y - ty])] (pts.filter (fun b => b.1 != v) ++ ρ)
+    | some [x, y, z], [tx, ty, tz] => sd d [(v, [x - tx, y - ty, z - tz])] (pts.filter (fun b => b.1 != v) ++ ρ)
     | _, _ => none
   | .rotate v d m c, pts, ρ =>
     match pts.get v, m.f (pts ++ ρ), c.f (pts ++ ρ) with
@@ -46,7 +46,7 @@ def sd : Dom K → Env K → Env K → Option K
       let det := m00 * m11 - m01 * m10
       let qx := x - cx
       let qy := y - cy
-      sd d [(v, [(m11 * qx - m01 * qy) / det + cx, (m00 * qy - m10 * qx) / det + cy])] ρ
+      sd d [(v, [(m11 * qx - m01 * qy) / det + cx, (m00 * qy - m10 * qx) / det + cy])] (pts.filter (fun b => b.1 != v) ++ ρ)
     | _, _, _ => none
   | .bdry d, pts, ρ => sd d pts ρ          -- the caller demands |sd| ≤ ε on a boundary
   | .bdryL (.interval v lb ub), pts, ρ =>
